@@ -128,6 +128,41 @@ def gen_ops(cl, rng, tier):
     return ops
 
 
+def gen_parsed_ops(cl, rng, tier):
+    """objects built by the (buffer, size) constructors from the byte strings of the wire generators (C01-C04), each class
+    on its own bytes AND on the bytes of the other classes of its hierarchy (an RSNEAPOL constructed on an RC4 key frame, a
+    Dot11Beacon on a data frame ...): what pdu_type() / matches_flag() answer may depend on the header the object holds
+    (seeded/C13b, seeded/C13e), which default-constructed objects do not show"""
+    import importlib
+    per = {}
+    n = 300 if tier == "quick" else 3000
+    for m in ("wire_gen_l2", "wire_gen_ip", "wire_gen_ip6", "wire_gen_transport", "wire_gen_icmp", "wire_gen_app", "wire_gen_wifi"):
+        try:
+            g = importlib.import_module("checks." + m)
+            for op in g.gen_parse(random.Random(rng.randrange(2 ** 32)), n):
+                w = op.split(" ")
+                if len(w) == 3 and w[0] == "parse" and len(w[2]) <= 600:
+                    per.setdefault(w[1].rstrip("*"), []).append(w[2])
+        except Exception as e:                       # a generator that cannot run here only narrows this stream
+            core.log(f"C13: {m}.gen_parse not usable for the parsed stream: {e!r}")
+    plain = [k for k in cl.concrete if k not in cl.wraps]
+    ops = []
+    own = 6 if tier == "quick" else 60
+    for k in plain:
+        hs = per.get(k, [])
+        for h in rng.sample(hs, min(len(hs), own)):
+            ops.append(f"parsed {k} {h}")
+        # the bytes of every other class that shares a (non-root) base with k
+        rel = [t for t in plain if t != k and (set(cl.anc[k]) & set(cl.anc[t])) - {"PDU"}]
+        for t in rel:
+            hs2 = per.get(t, [])
+            for h in rng.sample(hs2, min(len(hs2), 2 if tier == "quick" else 12)):
+                ops.append(f"parsed {k} {h}")
+        for h in rng.sample(per.get("Dot11", []), min(len(per.get("Dot11", [])), 4)) if "Dot11" in cl.anc[k] else []:
+            ops.append(f"parsed {k} {h}")
+    return ops
+
+
 def gen_ser_ops(cl, rng, tier):
     """serializations that exercise the casts libtins performs on neighbouring layers"""
     ops = []
@@ -291,6 +326,16 @@ def run(chk):
         if nontrivial(o, a):
             seen.add((o, a))
     chk.cov["samples"] += [{"op": o, "impl": a} for o, a in list(zip(ops, impl))[200:12000:3000]]
+    # 4b. parsed objects (no model: the table is about classes, not header states; the oracle judges the implementation)
+    pops = gen_parsed_ops(cl, rng, chk.tier)
+    pimpl, _, pspec, _ = corr.evaluate(AREA, exe, pops, CASE_START, model=False)
+    judge(chk, exe, pops, pimpl, None, pspec, stats, model=False)
+    for o, a in zip(pops, pimpl):
+        chk.cov["evaluations"] += 1
+        tag = "parsed:" + ("throw" if "throw" in a else "noctor" if "noctor" in a else "ok" if a.startswith("parsed ok") else "fault")
+        dist[tag] = dist.get(tag, 0) + 1
+        if a.startswith("parsed ok"):
+            seen.add((o, a))
     # 5. the casts libtins itself relies on, on the real (fully sanitized) library
     sops = gen_ser_ops(cl, rng, chk.tier)
     simpl, sfaults = core.run_harness_lines(exe, (), sops, CASE_START)
